@@ -61,7 +61,9 @@ def discharge(ob, timeout_ms=10000, use_cvc5=True):
     # (seed, budget factor, relevance-filter rounds or None for all hypotheses)
     # a round of very short attempts first (an obligation that is provable at all is usually proved in well under 0.1 s by SOME
     # seed / mode; which one depends on the machine), then the longer ones
-    schedule = ((0, 0.05, None), (3, 0.05, 0), (11, 0.05, None), (42, 0.05, 2),
+    # rounds < 0: every (-rounds)-th hypothesis is left out (a different residue class per seed): z3's instantiation order is chaotic
+    # and many queries become instant as soon as ANY one quantified hypothesis is absent; proving from fewer hypotheses is sound
+    schedule = ((0, 0.05, None), (3, 0.05, 0), (11, 0.05, None), (42, 0.05, 2), (0, 0.1, -3), (1, 0.1, -3), (2, 0.1, -3), (1, 0.1, -2),
                 (0, 0.25, None), (0, 0.25, 0), (0, 0.25, 2), (7, 0.25, None), (7, 0.25, 3), (23, 0.25, 0), (101, 0.5, 4),
                 (0, 1.0, None), (0, 1.0, 0), (7, 2.0, None))
     for attempt, (seed, factor, rounds) in enumerate(schedule):
@@ -138,7 +140,15 @@ def _discharge_once(ob, timeout_ms, use_cvc5, seed, rounds=None):
     if seed:
         s.set("random_seed", seed)
     if rounds is not None and ob.kind not in ("vacuity", "vacuity-exit"):
-        if rounds == 0:
+        if rounds < 0:
+            k = -rounds
+            hyps = [h for i, h in enumerate(ob.hyps) if i % k != seed % k]
+            s.add(*hyps)
+            s.add(*E.strlit_axioms())
+            s.add(z3.Not(ob.goal))
+            r = s.check()
+            ob.backend = "z3-" + Z3_VERSION + "(without every %d. hypothesis:%d/%d hyps)" % (k, len(hyps), len(ob.hyps))
+        elif rounds == 0:
             # all hypotheses, each guarded by an assumption literal (changes z3's instantiation strategy; often much faster)
             ps = [z3.Bool("hyp!%d" % i) for i in range(len(ob.hyps))]
             for p_, h_ in zip(ps, ob.hyps):
